@@ -29,6 +29,12 @@ def correspond(rep, tier, seed):
     corpus = control.corpus_scenarios()
     scs, failing = control.correspond_control(rep, tier, seed + 7, extra=corpus)
     n_viol = control.oracle_control(rep, scs, "C15")
+    # oracle-only volume (cheap: no evaluation inside Coq): GOAWAY sequences from the client's and the server's point of view,
+    # in particular a second GOAWAY that lowers the cut-off with streams on both sides of both cut-offs
+    from props.parts import sendflow
+    for k, (role, n) in enumerate((("client", 160), ("server", 80)) if tier == "quick" else (("client", 4000), ("server", 2000))):
+        more, _ = sendflow.gen_scenarios(seed * 313 + 11 + k, n, 120, "control", role=role)
+        n_viol += control.oracle_control(rep, more, "C15")
     failing = control.split_assert_failures(rep, scs, failing)
     if failing and n_viol == 0:
         if not search(rep, tier, seed, reason="correspondence"):
